@@ -93,6 +93,9 @@ pub fn rule_pool(p: u32) -> Vec<Rule> {
         // a - b = 0 if a and b are already known to be equal (all slots of a and b are covered by
         // the pattern's binders)
         Rule { name: "sum2-sub-eq", l: sum(X, sum(Y, n2("add", v(0), n1("neg", v(1))))), r: num(0), cond: None, cond2: None, cond_eq: Some((0, 1)) },
+        // the same under two let binders: here a wrong firing for a(x,y) - a(y,x) is not valid in
+        // the model (unlike under two summations, which are symmetric in x and y)
+        Rule { name: "let2-sub-eq", l: let_(X, let_(Y, n2("add", v(0), n1("neg", v(1))), v(2)), v(3)), r: num(0), cond: None, cond2: None, cond_eq: Some((0, 1)) },
         // a child before a binder
         r("sumr-intro", n2("mul", v(0), sum(X, v(1))), Pat::node("sumr", vec![], vec![(vec![], v(0)), (vec![X], v(1))])),
         r("sumr-elim", Pat::node("sumr", vec![], vec![(vec![], v(0)), (vec![X], v(1))]), n2("mul", v(0), sum(X, v(1)))),
